@@ -20,7 +20,7 @@ use easy_ml::interop::MatrixRefTensor;
 use easy_ml::matrices::views::{MatrixRange, MatrixRef, MatrixReverse, MatrixView, Reverse};
 use easy_ml::matrices::Matrix;
 use easy_ml::tensors::indexing::{TensorAccess, TensorTranspose};
-use easy_ml::tensors::views::{TensorRange, TensorRef, TensorRename, TensorReverse, TensorView};
+use easy_ml::tensors::views::{TensorChain, TensorRange, TensorRef, TensorRename, TensorReverse, TensorStack, TensorView};
 use easy_ml::tensors::Tensor;
 
 // ---------------------------------------------------------------------------------------------
@@ -178,13 +178,18 @@ struct CaseGen<'a> {
     g: &'a mut Gen,
     e: Ety,
     next: usize,
+    /// only the four main operand flavours (dimensionalities 5 and 6)
+    force_lite: bool,
 }
 
 impl<'a> CaseGen<'a> {
     fn new(g: &'a mut Gen, e: Ety) -> CaseGen<'a> {
         g.op(format!("@ {}", e.name()));
         g.count(&format!("case.ety={}", e.name()));
-        CaseGen { g, e, next: 0 }
+        CaseGen { g, e, next: 0, force_lite: false }
+    }
+    fn lite(&self) -> bool {
+        self.e != Ety::Fp || self.force_lite
     }
     fn fresh(&mut self, prefix: &str) -> String {
         self.next += 1;
@@ -195,7 +200,7 @@ impl<'a> CaseGen<'a> {
         let n: usize = shape.iter().map(|d| d.1).product();
         let vals = rand_vals(self.g, self.e, n);
         self.g.op(format!("t {} {} {}", name, show_shape(shape), vals));
-        let forms: &'static [&'static str] = if self.e != Ety::Fp { &T_LITE } else { &T_PLAIN };
+        let forms: &'static [&'static str] = if self.lite() { &T_LITE } else { &T_PLAIN };
         GOp { name, shape: shape.to_vec(), forms, kind: "tensor" }
     }
     /// a view with view shape `shape` whose iteration order differs from its storage order (or
@@ -216,7 +221,7 @@ impl<'a> CaseGen<'a> {
                 if perm.iter().enumerate().any(|(i, &p)| i != p) {
                     self.g.count("operand.view.order_differs_from_storage");
                 }
-                let forms: &'static [&'static str] = if self.e != Ety::Fp { &T_BOXED } else { &T_ACCESS };
+                let forms: &'static [&'static str] = if self.lite() { &T_BOXED } else { &T_ACCESS };
                 GOp { name, shape: shape.to_vec(), forms, kind: "access" }
             }
             1 => {
@@ -238,7 +243,7 @@ impl<'a> CaseGen<'a> {
                 if perm.iter().enumerate().any(|(i, &p)| i != p) {
                     self.g.count("operand.view.order_differs_from_storage");
                 }
-                let forms: &'static [&'static str] = if self.e != Ety::Fp { &T_BOXED } else { &T_TRANSPOSE };
+                let forms: &'static [&'static str] = if self.lite() { &T_BOXED } else { &T_TRANSPOSE };
                 GOp { name, shape: shape.to_vec(), forms, kind: "transpose" }
             }
             2 => {
@@ -282,6 +287,52 @@ impl<'a> CaseGen<'a> {
                 self.g.count("operand.view.rename");
                 GOp { name, shape: shape.to_vec(), forms: &T_BOXED, kind: "rename" }
             }
+            6 | 7 if self.stackable(shape, kind) => {
+                let d = shape.len();
+                if kind == 6 {
+                    // TensorStack of `n` sources of one dimension less, along position `p`
+                    let cands: Vec<usize> = (0..d).filter(|&p| shape[p].1 <= 4).collect();
+                    let p = cands[self.g.rng.below(cands.len())];
+                    let n = shape[p].1;
+                    let sub: Vec<(&'static str, usize)> = shape.iter().enumerate().filter(|(i, _)| *i != p).map(|(_, x)| *x).collect();
+                    let mut srcs = vec![];
+                    for _ in 0..n {
+                        let o = if self.g.rng.chance(2, 3) { self.tensor(&sub) } else { let k = self.g.rng.below(6); self.view_with_shape(&sub, k) };
+                        srcs.push(o.name);
+                    }
+                    let via = if n == 1 || self.g.rng.chance(1, 3) { "array" } else { "tuple" };
+                    let name = self.fresh("K");
+                    self.g.op(format!("k {} stack {} {}:{} via={}", name, srcs.join(","), p, shape[p].0, via));
+                    self.g.count(&format!("operand.view.stack.{}{}", via, n));
+                    GOp { name, shape: shape.to_vec(), forms: &T_BOXED, kind: "stack" }
+                } else {
+                    // TensorChain of 2..4 sources of different lengths along dimension `p`
+                    let cands: Vec<usize> = (0..d).filter(|&p| shape[p].1 >= 2).collect();
+                    let p = cands[self.g.rng.below(cands.len())];
+                    let total = shape[p].1;
+                    let parts_n = self.g.rng.range(2, total.min(4));
+                    let mut parts = vec![1usize; parts_n];
+                    for _ in 0..(total - parts_n) {
+                        let i = self.g.rng.below(parts_n);
+                        parts[i] += 1;
+                    }
+                    let mut srcs = vec![];
+                    for len in &parts {
+                        let mut sub = shape.to_vec();
+                        sub[p].1 = *len;
+                        let o = if self.g.rng.chance(2, 3) { self.tensor(&sub) } else { let k = self.g.rng.below(6); self.view_with_shape(&sub, k) };
+                        srcs.push(o.name);
+                    }
+                    let via = if self.g.rng.chance(1, 3) { "array" } else { "tuple" };
+                    let name = self.fresh("K");
+                    self.g.op(format!("k {} chain {} {} via={}", name, srcs.join(","), shape[p].0, via));
+                    self.g.count(&format!("operand.view.chain.{}{}", via, parts_n));
+                    if parts.iter().any(|l| *l != parts[0]) {
+                        self.g.count("operand.view.chain.sources_of_different_lengths");
+                    }
+                    GOp { name, shape: shape.to_vec(), forms: &T_BOXED, kind: "chain" }
+                }
+            }
             _ => {
                 // a chain: access over reverse over range
                 let src: Vec<(&'static str, usize)> = perm.iter().map(|&p| (shape[p].0, shape[p].1 + 1)).collect();
@@ -302,11 +353,20 @@ impl<'a> CaseGen<'a> {
             }
         }
     }
+    /// can a view of this shape be a TensorStack (kind 6) / TensorChain (kind 7) in the harness?
+    fn stackable(&self, shape: &[(&'static str, usize)], kind: usize) -> bool {
+        let d = shape.len();
+        if kind == 6 {
+            d >= 1 && d <= 3 && shape.iter().any(|x| x.1 <= 4)
+        } else {
+            d >= 1 && d <= 3 && shape.iter().any(|x| x.1 >= 2)
+        }
+    }
     fn matrix(&mut self, rows: usize, cols: usize) -> GOp {
         let name = self.fresh("M");
         let vals = rand_vals(self.g, self.e, rows * cols);
         self.g.op(format!("m {} {} {} {}", name, rows, cols, vals));
-        let forms: &'static [&'static str] = if self.e != Ety::Fp { &M_LITE } else { &M_PLAIN };
+        let forms: &'static [&'static str] = if self.lite() { &M_LITE } else { &M_PLAIN };
         GOp { name, shape: vec![("row", rows), ("column", cols)], forms, kind: "matrix" }
     }
     fn matrix_view(&mut self, rows: usize, cols: usize, kind: usize) -> GOp {
@@ -317,7 +377,7 @@ impl<'a> CaseGen<'a> {
                 let name = self.fresh("W");
                 self.g.op(format!("w {} {} range {}:{} {}:{}", name, s.name, rb, rows, cb, cols));
                 self.g.count("operand.matrixview.range");
-                let forms: &'static [&'static str] = if self.e != Ety::Fp { &M_BOXED } else { &M_RANGE };
+                let forms: &'static [&'static str] = if self.lite() { &M_BOXED } else { &M_RANGE };
                 GOp { name, shape: vec![("row", rows), ("column", cols)], forms, kind: "mrange" }
             }
             1 => {
@@ -414,8 +474,8 @@ fn gen_elementwise_case(g: &mut Gen, e: Ety, lens: &[usize]) {
     let mut c = CaseGen::new(g, e);
     let a = c.tensor(&shape);
     let b = c.tensor(&shape);
-    let k1 = c.g.rng.below(6);
-    let k2 = c.g.rng.below(6);
+    let k1 = c.g.rng.below(8);
+    let k2 = c.g.rng.below(8);
     let v1 = c.view_with_shape(&shape, k1);
     let v2 = c.view_with_shape(&shape, k2);
     for op in ["add", "sub"] {
@@ -492,7 +552,7 @@ fn gen_elementwise_reject_case(g: &mut Gen, e: Ety, lens: &[usize]) {
         }
     }
     for (why, s) in others {
-        let o = if c.g.rng.chance(1, 2) { c.tensor(&s) } else { let k = c.g.rng.below(6); c.view_with_shape(&s, k) };
+        let o = if c.g.rng.chance(1, 2) { c.tensor(&s) } else { let k = c.g.rng.below(8); c.view_with_shape(&s, k) };
         for op in ["add", "sub", "ewise"] {
             let (l, r) = if c.g.rng.chance(1, 2) { (&a, &o) } else { (&o, &a) };
             let lw = FORMS4[c.g.rng.below(4)];
@@ -526,7 +586,7 @@ fn gen_matmul_case(g: &mut Gen, e: Ety, m: usize, n: usize, l: usize) {
     let rs = vec![(intern(rn0), n), (intern(rn1), l)];
     let a = c.tensor(&ls);
     let b = c.tensor(&rs);
-    let (k1, k2) = (c.g.rng.below(6), c.g.rng.below(6));
+    let (k1, k2) = (c.g.rng.below(8), c.g.rng.below(8));
     let va = c.view_with_shape(&ls, k1);
     let vb = c.view_with_shape(&rs, k2);
     for lw in FORMS4 {
@@ -601,8 +661,8 @@ fn gen_matmul_reject_case(g: &mut Gen, e: Ety) {
     for (why, ls, rs) in table {
         let ls: Vec<(&'static str, usize)> = ls.iter().map(|d| (intern(d.0), d.1)).collect();
         let rs: Vec<(&'static str, usize)> = rs.iter().map(|d| (intern(d.0), d.1)).collect();
-        let lo = if c.g.rng.chance(1, 2) { c.tensor(&ls) } else { let k = c.g.rng.below(6); c.view_with_shape(&ls, k) };
-        let ro = if c.g.rng.chance(1, 2) { c.tensor(&rs) } else { let k = c.g.rng.below(6); c.view_with_shape(&rs, k) };
+        let lo = if c.g.rng.chance(1, 2) { c.tensor(&ls) } else { let k = c.g.rng.below(8); c.view_with_shape(&ls, k) };
+        let ro = if c.g.rng.chance(1, 2) { c.tensor(&rs) } else { let k = c.g.rng.below(8); c.view_with_shape(&rs, k) };
         let lw = FORMS4[c.g.rng.below(4)];
         let rw = FORMS4[c.g.rng.below(4)];
         let lf = c.pick_form(&lo, lw);
@@ -683,7 +743,7 @@ fn gen_scalar_case(g: &mut Gen, e: Ety, lens: &[usize]) {
     let shape: Vec<(&'static str, usize)> = names.iter().copied().zip(lens.iter().copied()).collect();
     let mut c = CaseGen::new(g, e);
     let a = c.tensor(&shape);
-    let k = c.g.rng.below(6);
+    let k = c.g.rng.below(8);
     let v = c.view_with_shape(&shape, k);
     for o in [&a, &v] {
         for op in ["sadd", "ssub", "smul", "sdiv"] {
@@ -712,7 +772,7 @@ fn gen_dot_case(g: &mut Gen, e: Ety, n: usize) {
     let shape = vec![(intern("s"), n)];
     let a = c.tensor(&shape);
     let b = c.tensor(&shape);
-    let (k1, k2) = (c.g.rng.below(6), c.g.rng.below(6));
+    let (k1, k2) = (c.g.rng.below(8), c.g.rng.below(8));
     let v1 = c.view_with_shape(&shape, k1);
     let v2 = c.view_with_shape(&shape, k2);
     for lw in ["ref-container", "ref-view"] {
@@ -738,6 +798,200 @@ fn gen_dot_case(g: &mut Gen, e: Ety, n: usize) {
             c.g.count(&format!("reject.dot.{}", why));
         }
     }
+}
+
+/// TensorStack / TensorChain operands of every tuple arity and array length, in every operation
+fn gen_stack_chain_cases(g: &mut Gen) {
+    for e in [Ety::Fp, Ety::Rat, Ety::I64] {
+        for (kind, via, n) in [
+            ("stack", "tuple", 2), ("stack", "tuple", 3), ("stack", "tuple", 4),
+            ("stack", "array", 1), ("stack", "array", 2), ("stack", "array", 3), ("stack", "array", 4),
+            ("chain", "tuple", 2), ("chain", "tuple", 3), ("chain", "tuple", 4),
+            ("chain", "array", 1), ("chain", "array", 2), ("chain", "array", 3), ("chain", "array", 4),
+        ] {
+            if e != Ety::Fp && g.rng.chance(1, 2) {
+                continue;
+            }
+            let mut c = CaseGen::new(g, e);
+            c.g.count(&format!("stackchain.{}.{}{}", kind, via, n));
+            // a vector: stack of n scalars / chain of n vectors of lengths 1, 2, …
+            let vec_len = if kind == "stack" { n } else { n * (n + 1) / 2 };
+            let mut srcs = vec![];
+            for i in 0..n {
+                let o = if kind == "stack" { c.tensor(&[]) } else { c.tensor(&[(intern("s"), i + 1)]) };
+                srcs.push(o.name);
+            }
+            let kv = c.fresh("K");
+            if kind == "stack" {
+                c.g.op(format!("k {} stack {} 0:s via={}", kv, srcs.join(","), via));
+            } else {
+                c.g.op(format!("k {} chain {} s via={}", kv, srcs.join(","), via));
+            }
+            let kvec = GOp { name: kv, shape: vec![(intern("s"), vec_len)], forms: &T_BOXED, kind: "stackchain" };
+            let plain = c.tensor(&[(intern("s"), vec_len)]);
+            for (l, r) in [(&kvec, &plain), (&plain, &kvec), (&kvec, &kvec)] {
+                let lf = c.pick_from(l, "ref-view", &RECEIVERS);
+                let rw = FORMS4[c.g.rng.below(4)];
+                let rf = c.pick_from(r, rw, &RHS);
+                c.binop("dot", l, r, lf, rf, "tensor");
+            }
+            // a matrix-shaped operand r x c: stack of n rows / chain of row blocks of 1, 2, … rows
+            let cols = c.g.rng.range(1, 3);
+            let rows = if kind == "stack" { n } else { n * (n + 1) / 2 };
+            let mut srcs = vec![];
+            for i in 0..n {
+                let o = if kind == "stack" { c.tensor(&[(intern("c"), cols)]) } else { c.tensor(&[(intern("r"), i + 1), (intern("c"), cols)]) };
+                srcs.push(o.name);
+            }
+            let km = c.fresh("K");
+            if kind == "stack" {
+                c.g.op(format!("k {} stack {} 0:r via={}", km, srcs.join(","), via));
+            } else {
+                c.g.op(format!("k {} chain {} r via={}", km, srcs.join(","), via));
+            }
+            let kmat = GOp { name: km, shape: vec![(intern("r"), rows), (intern("c"), cols)], forms: &T_BOXED, kind: "stackchain" };
+            let same = c.tensor(&[(intern("r"), rows), (intern("c"), cols)]);
+            let right = c.tensor(&[(intern("x"), cols), (intern("y"), 2)]);
+            let left = c.tensor(&[(intern("x"), 2), (intern("y"), rows)]);
+            for op in ["add", "sub"] {
+                for (l, r) in [(&kmat, &same), (&same, &kmat), (&kmat, &kmat)] {
+                    let lw = FORMS4[c.g.rng.below(4)];
+                    let rw = FORMS4[c.g.rng.below(4)];
+                    let lf = c.pick_form(l, lw);
+                    let rf = c.pick_form(r, rw);
+                    c.binop(op, l, r, lf, rf, "tensor");
+                }
+            }
+            for (l, r) in [(&kmat, &right), (&left, &kmat)] {
+                let lw = FORMS4[c.g.rng.below(4)];
+                let rw = FORMS4[c.g.rng.below(4)];
+                let lf = c.pick_form(l, lw);
+                let rf = c.pick_form(r, rw);
+                c.binop("mul", l, r, lf, rf, "tensor");
+            }
+            for op in ["sadd", "ssub", "smul", "sdiv"] {
+                if op == "sdiv" && c.e == Ety::I64 {
+                    continue;
+                }
+                let s = rand_val(c.g, c.e);
+                let f = kmat.forms[c.g.rng.below(kmat.forms.len())];
+                c.g.op(format!("{} {} {} via={}-s", op, kmat.name, s, f));
+            }
+            // through the matrix API: MatrixRefTensor over the stacked / chained tensor
+            let w = c.fresh("W");
+            c.g.op(format!("w {} {} oftensor", w, kmat.name));
+            for f in M_BOXED {
+                c.g.op(format!("neg {} via={}", w, f));
+                c.g.op(format!("mmap {} via={}", w, f));
+            }
+            let s = rand_val(c.g, c.e);
+            c.g.op(format!("smul {} {} via=bw-rs", w, s));
+        }
+    }
+}
+
+/// sizes beyond the small exhaustive sweeps: long vectors, wide inner dimensions, D = 5, 6
+fn gen_large_cases(g: &mut Gen) {
+    let thorough = g.thorough;
+    for n in [9usize, 16, 17, 31, 33, 64, 70] {
+        gen_dot_case(g, Ety::Fp, n);
+        if thorough || n % 2 == 1 {
+            gen_dot_case(g, Ety::Rat, n);
+        }
+    }
+    gen_dot_case(g, Ety::I64, 17);
+    gen_dot_case(g, Ety::F64, 33);
+    for n in 8..=17usize {
+        let (m, l) = (g.rng.range(1, 3), g.rng.range(1, 3));
+        gen_matmul_case(g, Ety::Fp, m, n, l);
+        if thorough || n % 3 == 2 {
+            gen_matmul_case(g, Ety::Rat, m, n, l);
+        }
+    }
+    gen_matmul_case(g, Ety::I64, 2, 16, 2);
+    gen_matmul_case(g, Ety::F64, 2, 17, 1);
+    // long elementwise operands
+    for lens in [vec![17usize], vec![70], vec![3, 23], vec![33, 2], vec![2, 9, 4]] {
+        gen_elementwise_case(g, Ety::Fp, &lens);
+        gen_scalar_case(g, Ety::Fp, &lens);
+    }
+    gen_matrix_elementwise_case(g, Ety::Fp, 17, 4);
+    gen_matrix_elementwise_case(g, Ety::Fp, 3, 33);
+    // dimensionality 5 and 6
+    for d in [5usize, 6] {
+        for rep in 0..(if thorough { 6 } else { 2 }) {
+            let e = if rep == 0 { Ety::Fp } else { [Ety::Fp, Ety::Rat][g.rng.below(2)] };
+            let mut lens: Vec<usize> = (0..d).map(|_| 1).collect();
+            let mut elems = 1;
+            for _ in 0..8 {
+                let i = g.rng.below(d);
+                if elems * (lens[i] + 1) / lens[i] <= 48 {
+                    elems = elems / lens[i] * (lens[i] + 1);
+                    lens[i] += 1;
+                }
+            }
+            gen_big_d_case(g, e, &lens);
+        }
+    }
+}
+
+fn gen_big_d_case(g: &mut Gen, e: Ety, lens: &[usize]) {
+    let names: Vec<&'static str> = ["a", "b", "c", "d", "row", "column"][..lens.len()].iter().map(|n| intern(n)).collect();
+    let shape: Vec<(&'static str, usize)> = names.iter().copied().zip(lens.iter().copied()).collect();
+    g.count(&format!("elementwise.D={}", lens.len()));
+    let mut c = CaseGen::new(g, e);
+    c.force_lite = true;
+    let a = c.tensor(&shape);
+    let b = c.tensor(&shape);
+    let (k1, k2) = (c.g.rng.below(6), c.g.rng.below(6));
+    let v1 = c.view_with_shape(&shape, k1);
+    let v2 = c.view_with_shape(&shape, k2);
+    for op in ["add", "sub"] {
+        for lw in FORMS4 {
+            for rw in FORMS4 {
+                let l = if lw.ends_with("container") { &a } else if c.g.rng.chance(1, 4) { &a } else { &v1 };
+                let r = if rw.ends_with("container") { &b } else if c.g.rng.chance(1, 4) { &b } else { &v2 };
+                let lf = c.pick_form(l, lw);
+                let rf = c.pick_form(r, rw);
+                c.binop(op, l, r, lf, rf, "tensor");
+            }
+        }
+    }
+    for o in [&a, &v1] {
+        for op in ["sadd", "ssub", "smul", "sdiv"] {
+            let f = o.forms[c.g.rng.below(o.forms.len())];
+            let s = rand_val(c.g, c.e);
+            let sf = if c.g.rng.chance(1, 2) { "s" } else { "rs" };
+            c.g.op(format!("{} {} {} via={}-{}", op, o.name, s, f, sf));
+        }
+    }
+    // a rejected neighbour: one name differs
+    let mut other = shape.clone();
+    other[lens.len() - 1].0 = intern("zz");
+    let o = c.tensor(&other);
+    c.binop("add", &a, &o, "rt", "rt", "tensor.reject");
+    c.binop("sub", &o, &v1, "t", "bv", "tensor.reject");
+}
+
+/// `Tensor::euclidean_length` / `Matrix::euclidean_length` (need `sqrt`: prime-field runs)
+fn gen_euclidean_length(g: &mut Gen) {
+    g.op("@ fp".to_string());
+    for n in [1usize, 2, 3, 5, 17] {
+        let v = rand_vals(g, Ety::Fp, n);
+        g.op(format!("t E{} s:{} {}", n, n, v));
+        g.op(format!("elen E{}", n));
+        g.op(format!("m R{} 1 {} {}", n, n, v));
+        g.op(format!("elen R{}", n));
+        g.op(format!("m C{} {} 1 {}", n, n, v));
+        g.op(format!("elen C{}", n));
+        g.count_n("euclidean_length", 3);
+    }
+    let v = rand_vals(g, Ety::Fp, 6);
+    g.op(format!("m N23 2 3 {}", v));
+    g.op("elen N23".to_string());
+    g.op(format!("m N32 3 2 {}", v));
+    g.op("elen N32".to_string());
+    g.count_n("euclidean_length.not_a_vector", 2);
 }
 
 fn all_lens(max_d: usize, max_len: usize, max_elems: usize) -> Vec<Vec<usize>> {
@@ -854,6 +1108,9 @@ pub fn gen(g: &mut Gen) {
             gen_dot_case(g, Ety::F64, n);
         }
     }
+    gen_stack_chain_cases(g);
+    gen_large_cases(g);
+    gen_euclidean_length(g);
     // catalogue of operator impls found in the sources (so that a new form cannot be missed)
     scan_catalogue(g);
 }
@@ -1084,6 +1341,7 @@ macro_rules! any_d {
             AnyT::D1($x) => $body,
             AnyT::D2($x) => $body,
             AnyT::D3($x) => $body,
+            _ => "bad-op".to_string(),
         }
     };
 }
@@ -1170,8 +1428,15 @@ macro_rules! runner_for {
 
             #[derive(Clone)]
             pub struct TOp<const D: usize> {
-                base: Tensor<T, D>,
+                base: TBase<D>,
                 ads: Vec<Ad>,
+            }
+
+            /// a tensor, or a recipe that rebuilds a `TensorStack` / `TensorChain` over its sources
+            #[derive(Clone)]
+            pub enum TBase<const D: usize> {
+                Tensor(Tensor<T, D>),
+                Built(std::rc::Rc<dyn Fn() -> Dyn<D>>),
             }
 
             fn wrap<const D: usize>(cur: Dyn<D>, ad: &Ad) -> Dyn<D> {
@@ -1190,25 +1455,34 @@ macro_rules! runner_for {
 
             impl<const D: usize> TOp<D> {
                 pub fn boxed(&self) -> Dyn<D> {
-                    let mut cur: Dyn<D> = Box::new(self.base.clone());
+                    let mut cur: Dyn<D> = match &self.base {
+                        TBase::Tensor(t) => Box::new(t.clone()),
+                        TBase::Built(f) => f(),
+                    };
                     for ad in &self.ads {
                         cur = wrap(cur, ad);
                     }
                     cur
                 }
+                fn base_tensor(&self) -> Tensor<T, D> {
+                    match &self.base {
+                        TBase::Tensor(t) => t.clone(),
+                        TBase::Built(_) => panic!("form needs a tensor at the bottom"),
+                    }
+                }
                 pub fn plain(&self) -> Tensor<T, D> {
                     assert!(self.ads.is_empty(), "form needs a plain tensor");
-                    self.base.clone()
+                    self.base_tensor()
                 }
                 pub fn access(&self) -> TensorAccess<T, Tensor<T, D>, D> {
                     match &self.ads[..] {
-                        [Ad::Access(n)] => TensorAccess::from(self.base.clone(), names_array(n)),
+                        [Ad::Access(n)] => TensorAccess::from(self.base_tensor(), names_array(n)),
                         _ => panic!("form needs exactly one access adaptor"),
                     }
                 }
                 pub fn transposed(&self) -> TensorTranspose<T, Tensor<T, D>, D> {
                     match &self.ads[..] {
-                        [Ad::Transpose(n)] => TensorTranspose::from(self.base.clone(), names_array(n)),
+                        [Ad::Transpose(n)] => TensorTranspose::from(self.base_tensor(), names_array(n)),
                         _ => panic!("form needs exactly one transpose adaptor"),
                     }
                 }
@@ -1269,6 +1543,30 @@ macro_rules! runner_for {
             fn pm<const D: usize>(op: &str, l: &TOp<D>, r: &TOp<D>, lf: &str, rf: &str) -> String {
                 let res: Result<Tensor<T, D>, PanicKind> = $pair_t!(lf, l, x, rf, r, y => {
                     if op == "add" { catch(|| x + y) } else { catch(|| x - y) }
+                });
+                panic_or(res, |t| show_tensor(&t))
+            }
+
+            fn pm_lite<const D: usize>(op: &str, l: &TOp<D>, r: &TOp<D>, lf: &str, rf: &str) -> String {
+                let res: Result<Tensor<T, D>, PanicKind> = with_t_pair_lite!(lf, l, x, rf, r, y => {
+                    if op == "add" { catch(|| x + y) } else { catch(|| x - y) }
+                });
+                panic_or(res, |t| show_tensor(&t))
+            }
+
+            fn scalar_lite<const D: usize>(op: &str, o: &TOp<D>, s: &T, f: &str, sf: &str) -> String {
+                let res: Result<Tensor<T, D>, PanicKind> = with_t_lite!(f, o, x => {
+                    let s = s.clone();
+                    match (op, sf) {
+                        ("sadd", "s") => catch(|| x + s),
+                        ("sadd", _) => catch(|| x + &s),
+                        ("ssub", "s") => catch(|| x - s),
+                        ("ssub", _) => catch(|| x - &s),
+                        ("smul", "s") => catch(|| x * s),
+                        ("smul", _) => catch(|| x * &s),
+                        ("sdiv", "s") => catch(|| x / s),
+                        (_, _) => catch(|| x / &s),
+                    }
                 });
                 panic_or(res, |t| show_tensor(&t))
             }
@@ -1356,6 +1654,8 @@ macro_rules! runner_for {
 
             pub enum AnyT {
                 D0(TOp<0>), D1(TOp<1>), D2(TOp<2>), D3(TOp<3>),
+                /// high dimensionalities: elementwise `+ -` and scalar ops with the four main flavours only
+                D5(TOp<5>), D6(TOp<6>),
             }
 
             #[derive(Default)]
@@ -1401,7 +1701,7 @@ macro_rules! runner_for {
                                 ($D:literal, $V:ident) => {{
                                     match catch(|| Tensor::<T, $D>::from(shape_array(&shape), vals)) {
                                         Ok(t) => {
-                                            self.tens.insert(0, (name.to_string(), AnyT::$V(TOp { base: t, ads: vec![] })));
+                                            self.tens.insert(0, (name.to_string(), AnyT::$V(TOp { base: TBase::Tensor(t), ads: vec![] })));
                                             "ok".to_string()
                                         }
                                         Err(k) => panic_str(k),
@@ -1410,6 +1710,7 @@ macro_rules! runner_for {
                             }
                             match shape.len() {
                                 0 => mk!(0, D0), 1 => mk!(1, D1), 2 => mk!(2, D2), 3 => mk!(3, D3),
+                                5 => mk!(5, D5), 6 => mk!(6, D6),
                                 _ => "bad-op".into(),
                             }
                         }
@@ -1420,6 +1721,8 @@ macro_rules! runner_for {
                                 Some(AnyT::D1(o)) => define_view(o, kind, arg).map(|(o, s)| (AnyT::D1(o), s)),
                                 Some(AnyT::D2(o)) => define_view(o, kind, arg).map(|(o, s)| (AnyT::D2(o), s)),
                                 Some(AnyT::D3(o)) => define_view(o, kind, arg).map(|(o, s)| (AnyT::D3(o), s)),
+                                Some(AnyT::D5(o)) => define_view(o, kind, arg).map(|(o, s)| (AnyT::D5(o), s)),
+                                Some(AnyT::D6(o)) => define_view(o, kind, arg).map(|(o, s)| (AnyT::D6(o), s)),
                             };
                             match r {
                                 Ok((o, s)) => {
@@ -1427,6 +1730,85 @@ macro_rules! runner_for {
                                     s
                                 }
                                 Err(s) => s,
+                            }
+                        }
+                        ["k", name, kind, srcs_s, along_s, rest @ ..] => {
+                            let arity = opt_arg("via", rest).unwrap_or("tuple");
+                            let names = split_comma(srcs_s);
+                            let mut srcs: Vec<&AnyT> = vec![];
+                            for n in &names {
+                                match self.tensor(n) {
+                                    Some(t) => srcs.push(t),
+                                    None => return "no-operand".into(),
+                                }
+                            }
+                            let along_s = along_s.to_string();
+                            // stack: D -> D + 1 (D = 0, 1, 2); chain: D -> D (D = 1, 2, 3)
+                            macro_rules! gather {
+                                ($V:ident) => {{
+                                    let mut v = vec![];
+                                    for s in &srcs {
+                                        match s {
+                                            AnyT::$V(o) => v.push(o.clone()),
+                                            _ => return "none".into(),
+                                        }
+                                    }
+                                    v
+                                }};
+                            }
+                            macro_rules! build {
+                                ($Adaptor:ident, $d:literal, $out:ty, $srcs:expr, $along:expr) => {{
+                                    let srcs = $srcs;
+                                    let along = $along;
+                                    let f: std::rc::Rc<dyn Fn() -> $out> = match (arity, srcs.len()) {
+                                        ("tuple", 2) => std::rc::Rc::new(move || Box::new($Adaptor::<T, (Dyn<$d>, Dyn<$d>), $d>::from((srcs[0].boxed(), srcs[1].boxed()), along)) as $out),
+                                        ("tuple", 3) => std::rc::Rc::new(move || Box::new($Adaptor::<T, (Dyn<$d>, Dyn<$d>, Dyn<$d>), $d>::from((srcs[0].boxed(), srcs[1].boxed(), srcs[2].boxed()), along)) as $out),
+                                        ("tuple", 4) => std::rc::Rc::new(move || Box::new($Adaptor::<T, (Dyn<$d>, Dyn<$d>, Dyn<$d>, Dyn<$d>), $d>::from((srcs[0].boxed(), srcs[1].boxed(), srcs[2].boxed(), srcs[3].boxed()), along)) as $out),
+                                        ("array", 1) => std::rc::Rc::new(move || Box::new($Adaptor::<T, [Dyn<$d>; 1], $d>::from([srcs[0].boxed()], along)) as $out),
+                                        ("array", 2) => std::rc::Rc::new(move || Box::new($Adaptor::<T, [Dyn<$d>; 2], $d>::from([srcs[0].boxed(), srcs[1].boxed()], along)) as $out),
+                                        ("array", 3) => std::rc::Rc::new(move || Box::new($Adaptor::<T, [Dyn<$d>; 3], $d>::from([srcs[0].boxed(), srcs[1].boxed(), srcs[2].boxed()], along)) as $out),
+                                        ("array", 4) => std::rc::Rc::new(move || Box::new($Adaptor::<T, [Dyn<$d>; 4], $d>::from([srcs[0].boxed(), srcs[1].boxed(), srcs[2].boxed(), srcs[3].boxed()], along)) as $out),
+                                        _ => return "none".into(),
+                                    };
+                                    f
+                                }};
+                            }
+                            macro_rules! finish {
+                                ($V:ident, $f:expr) => {{
+                                    let o = TOp { base: TBase::Built($f), ads: vec![] };
+                                    match catch(|| TensorView::from(o.boxed()).shape()) {
+                                        Ok(shape) => {
+                                            self.tens.insert(0, (name.to_string(), AnyT::$V(o)));
+                                            format!("ok shape={}", show_shape(&shape))
+                                        }
+                                        Err(_) => "none".into(),
+                                    }
+                                }};
+                            }
+                            if srcs.is_empty() {
+                                return "none".into();
+                            }
+                            match (*kind, srcs[0]) {
+                                ("stack", first) => {
+                                    let (p, n) = along_s.split_once(':').expect("pos:name");
+                                    let along: (usize, &'static str) = (p.parse().unwrap(), intern(n));
+                                    match first {
+                                        AnyT::D0(_) => { let f = build!(TensorStack, 0, Dyn<1>, gather!(D0), along); finish!(D1, f) }
+                                        AnyT::D1(_) => { let f = build!(TensorStack, 1, Dyn<2>, gather!(D1), along); finish!(D2, f) }
+                                        AnyT::D2(_) => { let f = build!(TensorStack, 2, Dyn<3>, gather!(D2), along); finish!(D3, f) }
+                                        _ => "none".into(),
+                                    }
+                                }
+                                ("chain", first) => {
+                                    let along: &'static str = intern(&along_s);
+                                    match first {
+                                        AnyT::D1(_) => { let f = build!(TensorChain, 1, Dyn<1>, gather!(D1), along); finish!(D1, f) }
+                                        AnyT::D2(_) => { let f = build!(TensorChain, 2, Dyn<2>, gather!(D2), along); finish!(D2, f) }
+                                        AnyT::D3(_) => { let f = build!(TensorChain, 3, Dyn<3>, gather!(D3), along); finish!(D3, f) }
+                                        _ => "none".into(),
+                                    }
+                                }
+                                _ => "bad-op".into(),
                             }
                         }
                         ["m", name, rows_s, cols_s, vals_s] => {
@@ -1489,7 +1871,11 @@ macro_rules! runner_for {
                             let via = opt_arg("via", rest).unwrap_or("rt-rt");
                             let (lf, rf) = via.split_once('-').expect("via=l-r");
                             if let (Some(x), Some(y)) = (self.tensor(a), self.tensor(b)) {
-                                $same_d!(x, y, p, q => pm(op, p, q, lf, rf))
+                                match (x, y) {
+                                    (AnyT::D5(p), AnyT::D5(q)) => pm_lite(op, p, q, lf, rf),
+                                    (AnyT::D6(p), AnyT::D6(q)) => pm_lite(op, p, q, lf, rf),
+                                    _ => $same_d!(x, y, p, q => pm(op, p, q, lf, rf)),
+                                }
                             } else if let (Some(x), Some(y)) = (self.matrix(a), self.matrix(b)) {
                                 mbin(op, x, y, lf, rf)
                             } else {
@@ -1533,7 +1919,11 @@ macro_rules! runner_for {
                             let (f, sf) = via.split_once('-').expect("via=f-s");
                             let s = <T as Elem>::parse(s);
                             if let Some(x) = self.tensor(a) {
-                                $any_d!(x, p => scalar(op, p, &s, f, sf))
+                                match x {
+                                    AnyT::D5(p) => scalar_lite(op, p, &s, f, sf),
+                                    AnyT::D6(p) => scalar_lite(op, p, &s, f, sf),
+                                    _ => $any_d!(x, p => scalar(op, p, &s, f, sf)),
+                                }
                             } else if let Some(x) = self.matrix(a) {
                                 mscalar(op, x, &s, f, sf)
                             } else {
@@ -1592,7 +1982,26 @@ impl Runner {
             ["@", "f64"] => { self.case = Case::F64(Default::default()); "ok".into() }
             _ => match &mut self.case {
                 Case::None => "no-case".into(),
-                Case::Fp(e) => e.step(toks),
+                Case::Fp(e) => match toks {
+                    // euclidean_length needs `Real` (sqrt): prime-field runs only
+                    ["elen", a, ..] => {
+                        if let Some(t) = e.tensor(a) {
+                            match t {
+                                run_fp::AnyT::D1(o) => {
+                                    let t = o.plain();
+                                    panic_or(catch(|| t.euclidean_length()), |v| format!("value={}", v.show()))
+                                }
+                                _ => "bad-op".into(),
+                            }
+                        } else if let Some(m) = e.matrix(a) {
+                            let m = m.plain();
+                            panic_or(catch(|| m.euclidean_length()), |v| format!("value={}", v.show()))
+                        } else {
+                            "no-operand".into()
+                        }
+                    }
+                    _ => e.step(toks),
+                },
                 Case::Rat(e) => e.step(toks),
                 Case::I64(e) => e.step(toks),
                 Case::F64(e) => e.step(toks),
